@@ -76,6 +76,14 @@ func c06(c *core.Ctx, r *core.Report) {
 			}
 		}
 		if runCall == nil {
+			// the run loop is called from a helper of Do: the helper's call in Do stands for it
+			for _, e := range an.FlatCalls(do, flatDepth, func(_ ssa.CallInstruction, t *ssa.Function) bool { return t == loop }) {
+				if rc, ok := e.Root().(ssa.CallInstruction); ok {
+					runCall = rc
+				}
+			}
+		}
+		if runCall == nil {
 			r.Undecided(core.FuncName(do)+"#run-call", c.Pos(do.Pos()), "call of the run loop not found")
 			return
 		}
